@@ -1595,7 +1595,17 @@ fn forward_device_data(
     // println!("{:?} {:?} {}", start, next, request.read_count);
 
     if publishes.is_empty() {
-        return ConsumeStatus::FilterCaughtup;
+        // everything that was read has expired: the position moved on all the same, and
+        // the log may hold more
+        if let Some(share) = shared_group {
+            share.cursor = request.cursor;
+        }
+
+        return if caughtup {
+            ConsumeStatus::FilterCaughtup
+        } else {
+            ConsumeStatus::PartialRead
+        };
     }
 
     let broker_topic_aliases = &mut connection.broker_topic_aliases;
